@@ -27,6 +27,7 @@ def run(ctx) -> None:
     ctx.rule("c.buffers", "typed buffer discipline: LEFT buffers receive left-row values, RIGHT buffers right-row values, "
                           "one append per column per emitted row; buffers sized n_left+n_right", 3)
     ctx.rule("d.unmatched", "a probe key without bucket emits nothing and nothing else is skipped", 1)
+    ctx.rule("d.no-early-result", "every return of a join follows the index and probe loops (no fast path bypasses emission)", 3)
     ctx.rule("e.wrap", "result column i wraps buffer i under source column i's stored name, left then right, dtype inferred", 3)
     ctx.rule("f.determinism", "no iteration over sets / no hash() or id() flowing into the output in the join code", 3)
     ctx.rule("g.purity", "join functions and their helpers write no content field of self/other", 3)
@@ -47,6 +48,7 @@ def run(ctx) -> None:
                 jr.inner_unmatched(ctx, jf)
             jr.wrap(ctx, jf)
             jr.determinism(ctx, jf)
+            jr.no_early_result(ctx, jf, "d.no-early-result")
         ctx.section(f"join-structure:{v}", one)
         ctx.section(f"purity:{v}", jr.purity, ctx, v)
     ctx.section("siblings", jr.siblings, ctx, facts)
